@@ -10,9 +10,9 @@ VARIABLES l, bad, hc      \* hc: the current library-written header (memo of its
 \* the driver must have fed exactly the text the specification generated
 RunFed(r) == /\ Len(r.gen.text) = Len(r.gen.ids)
              /\ \A k \in 1..Len(r.gen.ids) : r.gen.ids[k] \in AlphaIds /\ r.gen.text[k] = Alpha[r.gen.ids[k]]
-             /\ r.fed = JoinLines(r.gen.text, r.gen.nl)
+             /\ r.fed = JoinLinesE(r.gen.text, r.gen.nl, r.gen.crlf)
 RunOk(r) == /\ RunFed(r)
-            /\ \E x \in {TestRun(r.gen.ids, r.gen.nl)} :
+            /\ \E x \in {TestRun(r.gen.ids, r.gen.nl, r.gen.crlf)} :
                  /\ r.obs.verdict = x.verdict          \* accepted | rejected | error - never abort or hang
                  /\ r.obs.vars = x.st.vars              \* final variable state (also at the point of an error)
 
@@ -21,7 +21,7 @@ NoHdr == [hid |-> 0]
 HdrInit(kind) == IF kind = "image" THEN ImageInit ELSE PDFSInit
 \* memo of a "Hdr" line: parse of every line, the run of the unmodified header
 HdrMemo(r) ==
-  LET PL == [i \in 1..Len(r.lines) |-> [t |-> r.lines[i], hasp |-> TRUE, p |-> ParseLine(r.lines[i])]] IN
+  LET PL == [i \in 1..Len(r.lines) |-> [t |-> r.lines[i], core |-> r.lines[i], hasp |-> TRUE, p |-> ParseLine(r.lines[i])]] IN
   [hid |-> r.hid, kind |-> r.kind, cfg |-> [datafile |-> r.datafile, datalen |-> r.datalen], PL |-> PL, nl |-> r.nl,
    base |-> ParseHeaderP(HdrInit(r.kind), PL, r.nl), written |-> r.written]
 \* the library must read back what it wrote
@@ -101,8 +101,8 @@ ClassifyMut(r, h, run) ==
   ELSE "new"
 Classify(r, h) ==
   IF r.e = "Run" /\ RunFed(r) THEN
-     (IF \E x \in {TestRun(r.gen.ids, r.gen.nl)} : x.contAtEof /\ r.obs.verdict = "abort" THEN "C17-conteof"
-      ELSE IF \E x \in {TestRun(r.gen.ids, r.gen.nl)} : x.why = "IndexNotRepresentable" /\ r.obs.verdict # "abort" THEN "C17-indexwrap"
+     (IF \E x \in {TestRun(r.gen.ids, r.gen.nl, r.gen.crlf)} : x.contAtEof /\ r.obs.verdict = "abort" THEN "C17-conteof"
+      ELSE IF \E x \in {TestRun(r.gen.ids, r.gen.nl, r.gen.crlf)} : x.why = "IndexNotRepresentable" /\ r.obs.verdict # "abort" THEN "C17-indexwrap"
       ELSE "new")
   ELSE IF r.e = "Mut" /\ h.hid = r.hid THEN
      CHOOSE cls \in {"C17-imgnull", "C17-hugealloc", "C17-nodataset", "C17-matrixsize-missing", "C17-scanner-div0", "C17-ub-arith", "C17-indexwrap", "new"} :
